@@ -362,6 +362,20 @@ func (g *sgen) newStruct(depth int) *StructT {
 }
 
 func defaultFor(r *h.Rand, t *Type) *tref.Val {
+	if r.Chance(25) {
+		// the ends of the type's range (and their neighbours)
+		pick := func(min, max int64) int64 { return []int64{min, max, min + 1, max - 1, 0, -1}[r.Intn(6)] }
+		switch t.T {
+		case tref.BYTE:
+			return tref.Byte(int8(pick(math.MinInt8, math.MaxInt8)))
+		case tref.I16:
+			return tref.Int16(int16(pick(math.MinInt16, math.MaxInt16)))
+		case tref.I32:
+			return tref.Int32(int32(pick(math.MinInt32, math.MaxInt32)))
+		case tref.I64:
+			return tref.Int64(pick(math.MinInt64, math.MaxInt64))
+		}
+	}
 	switch t.T {
 	case tref.BOOL:
 		return tref.Bool(true)
